@@ -629,7 +629,7 @@ def condense(A: spmatrix,
     b, x, I, D = _init_bc(A, b, x, I, D)
 
     # COO, DIA and BSR matrices cannot be indexed
-    if A.format in ('coo', 'dia', 'bsr'):
+    if getattr(A, 'format', None) in ('coo', 'dia', 'bsr'):
         A = A.tocsr()
     if isinstance(b, spmatrix) and b.format in ('coo', 'dia', 'bsr'):
         b = b.tocsr()
@@ -693,7 +693,7 @@ def mpc(A: spmatrix,
         raise ValueError("Inputs to mpc have incompatible shapes.")
 
     # COO, DIA and BSR matrices cannot be indexed
-    if A.format in ('coo', 'dia', 'bsr'):
+    if getattr(A, 'format', None) in ('coo', 'dia', 'bsr'):
         A = A.tocsr()
 
     B = bmat([
